@@ -304,8 +304,26 @@ class Evaluator:
                 x = self.eval(v.value) if isinstance(v, ast.FormattedValue) else Opaque("fstring")
             except Unknown:
                 x = Opaque("fstring")
-            if not plain or isinstance(x, Opaque) or not isinstance(x, (str, int, float, bool, type(None))):
+            if isinstance(x, Opaque) or not isinstance(x, (str, int, float, bool, type(None))):
                 parts = None
+            elif not plain:
+                # conversion (!r / !s) and format spec on a concrete value: what Python does
+                spec = self.eval(v.format_spec) if v.format_spec is not None else ""
+                if not isinstance(spec, str):
+                    parts = None
+                    continue
+                if v.conversion == ord("r"):
+                    x = repr(x)
+                elif v.conversion == ord("s"):
+                    x = str(x)
+                elif v.conversion == ord("a"):
+                    x = ascii(x)
+                try:
+                    text = format(x, spec)
+                except (ValueError, TypeError) as exc:
+                    raise EvalRaise(type(exc).__name__, e)
+                if parts is not None:
+                    parts.append(text)
             elif parts is not None:
                 parts.append(str(x))
         return Opaque("fstring") if parts is None else "".join(parts)
